@@ -47,5 +47,20 @@ def main(path):
     return 0
 
 
+def enumerate_main(pid, params_json):
+    """exhaustive concrete enumeration of one shard on the real code (real numpy); prints one JSON line"""
+    import logging
+
+    from symex.concrete import enumerate_shard
+
+    warnings.simplefilter("ignore")
+    logging.disable(logging.CRITICAL)
+    H = importlib.import_module(f"harness.{pid}")
+    print("ENUM-RESULT " + json.dumps(enumerate_shard(H, json.loads(params_json)), default=str))
+    return 0
+
+
 if __name__ == "__main__":
+    if sys.argv[1] == "--enumerate":
+        sys.exit(enumerate_main(sys.argv[2], sys.argv[3]))
     sys.exit(main(sys.argv[1]))
